@@ -449,7 +449,11 @@ func ruleInterruptUnwind(c *Ctx, r *R) {
 		// is at fault when it passes the marker on; a handler further down (a helper that filters script exceptions and
 		// re-panics everything else unchanged) is transparent - what is above it decides
 		apiGuard := false
-		for _, d := range deferrersOf(c, h) {
+		var guardLevel func(d *ssa.Function, depth int) bool
+		guardLevel = func(d *ssa.Function, depth int) bool {
+			if depth > 2 {
+				return false
+			}
 			for cl := range callers[d] {
 				top := cl
 				for top.Parent() != nil {
@@ -457,12 +461,25 @@ func ruleInterruptUnwind(c *Ctx, r *R) {
 				}
 				if top.Object() != nil && top.Object().Exported() {
 					if recv := top.Signature.Recv(); recv == nil {
-						apiGuard = true
+						return true
 					} else if n := derefNamed(recv.Type()); n != nil && n.Obj().Exported() {
-						apiGuard = true
+						return true
+					}
+				}
+				// called from the handler of a guard (uncaughtString in catchPanic's handler): that runs after the guard's
+				// recover, so it is at the guard's level itself
+				if p := cl.Parent(); p != nil && cl != d {
+					for _, hh := range deferredHandlers(p) {
+						if hh == cl && guardLevel(p, depth+1) {
+							return true
+						}
 					}
 				}
 			}
+			return false
+		}
+		for _, d := range deferrersOf(c, h) {
+			apiGuard = apiGuard || guardLevel(d, 0)
 		}
 		key := "handler:" + ssaFuncName(h)
 		site := c.Pos(h.Pos())
